@@ -216,7 +216,7 @@ def rule_b(ctx: Ctx) -> None:
         if f.name not in ('raw_decode', 'raw_encode') or isinstance(f.node, ast.Lambda):
             continue
         par = None
-        loop_vars = {text(n.target) for n in walk_no_nested(f.node) if isinstance(n, ast.For) and text(n.iter) == 'self.validators'}
+        loop_vars = {text(n.target) for n in walk_no_nested(f.node) if isinstance(n, ast.For) and text(n.iter) in ('self.validators', 'patterns')}
         for c in calls(f.node):
             fn = text(c.func)
             if fn in loop_vars or fn in ('self.patterns', 'patterns'):
